@@ -89,7 +89,7 @@ def run(R, tier, rng):
                 if variant == "len": ids2 = [c + [5] for c in ids2]
                 expect = int(ids2 == ids)
                 def eq(ids2=ids2): return int(bool(mk() == C(*[real(k, col) for k, col in zip(kinds, ids2)])))
-                R.record("eq " + show(ids) + " " + show(ids2) + tag, guarded(eq), expect, expect, nt, "eq", py=f"obj == obj' ({variant})")
+                add("dc_eq " + show(ids) + " " + show(ids2) + tag, guarded(eq), "eq", nt, f"obj == obj' ({variant})")
             # astype to a narrower class (field names preserved)
             if nf >= 2:
                 for keep in ([0], [nf - 1], list(range(nf - 1)), list(range(nf))[::-1], [nf - 1, 0]):
